@@ -19,7 +19,8 @@
 //!   wdop    cred <wit>         voteop  vkind cred <wit>     (vkind 0 committee hot, 1 DRep, 2 stake pool)
 //!   propop  pid scripted(0|1) <wit>       mintop  N <nsrc> | P <psrc> red
 //!   S explicit required signers, R explicit reference inputs, D extra witness datums.
-//! Native script ids are < 1000, Plutus script ids >= 1000 (language = id mod 3).  Everything the witness code
+//! Native script ids are < 1000, Plutus script ids >= 1000 (language = id mod 3; ids 1000+3b .. 1002+3b have the SAME BYTES:
+//! one compiled script under three language versions = three scripts with three hashes).  Everything the witness code
 //! does not look at (amounts, pool parameters, anchors ...) is a fixed function of the ids and positions.
 //!
 //! Observation:  ok acc=<bits> dfs=<full_size - |unsigned tx|> dss=<|really signed tx| - |unsigned tx|>
@@ -235,9 +236,11 @@ impl World {
         all.add(&NativeScript::new_timelock_start(&TimelockStart::new_timelockstart(&BigNum::from(s))));
         NativeScript::new_script_all(&ScriptAll::new(&all))
     }
+    /// Plutus script ids 1000+3b, 1001+3b, 1002+3b share the SAME BYTES (byte id b) under the three language versions
+    /// (language = id mod 3): three different scripts with three different hashes.
     fn plutus_script(&self, s: u64) -> PlutusScript {
         let mut bytes = vec![0x4du8, 0x01, 0x00, 0x00];
-        bytes.extend_from_slice(&s.to_be_bytes());
+        bytes.extend_from_slice(&((s - 1000) / 3).to_be_bytes());
         match s % 3 { 0 => PlutusScript::new(bytes), 1 => PlutusScript::new_v2(bytes), _ => PlutusScript::new_v3(bytes) }
     }
     fn script_hash(&self, s: u64) -> ScriptHash { if s < 1000 { self.native_script(s, None).hash() } else { self.plutus_script(s).hash() } }
@@ -247,7 +250,7 @@ impl World {
     fn nsrc(&self, n: &NSrc) -> NativeScriptSource {
         let (mut src, d) = match n {
             NSrc::Inline(s, ks, d) => (NativeScriptSource::new(&self.native_script(*s, Some(ks))), d),
-            NSrc::Ref(r, s, d) => (NativeScriptSource::new_ref_input(&self.script_hash(*s), &oref(*r), 50 + *s as usize), d),
+            NSrc::Ref(r, s, d) => (NativeScriptSource::new_ref_input(&self.script_hash(*s), &oref(*r), 50 + (*r % 50) as usize), d),
         };
         if let Some(d) = d { src.set_required_signers(&khs(d)); }
         src
@@ -256,8 +259,9 @@ impl World {
         let (mut src, d) = match p {
             PSrc::Inline(s, d) => (PlutusScriptSource::new(&self.plutus_script(*s)), d),
             PSrc::Ref(r, s, d) => {
-                let lang = match s % 3 { 0 => Language::new_plutus_v1(), 1 => Language::new_plutus_v2(), _ => Language::new_plutus_v3() };
-                (PlutusScriptSource::new_ref_input(&self.script_hash(*s), &oref(*r), &lang, 60 + (*s % 100) as usize), d)
+                // the language and size a reference source declares are the caller's word: they vary with the outpoint
+                let lang = match (s + r) % 3 { 0 => Language::new_plutus_v1(), 1 => Language::new_plutus_v2(), _ => Language::new_plutus_v3() };
+                (PlutusScriptSource::new_ref_input(&self.script_hash(*s), &oref(*r), &lang, 60 + (*r % 50) as usize), d)
             }
         };
         if let Some(d) = d { src.set_required_signers(&khs(d)); }
@@ -495,7 +499,10 @@ fn run_case(c: &Case) -> String {
     if !c.mint.is_empty() { tb.set_mint_builder(&mb); }
     for k in &c.signers { tb.add_required_signer(&kh(*k)); }
     for r in &c.refs { tb.add_reference_input(&oref(*r)); }
-    for d in &c.datums { tb.add_extra_witness_datum(&datum(*d)); }
+    for (i, d) in c.datums.iter().enumerate() {
+        let v = if i % 2 == 0 { PlutusData::from_bytes(datum(*d).to_bytes()).unwrap() } else { datum(*d) };
+        tb.add_extra_witness_datum(&v);
+    }
     tb.set_fee(&BigNum::from(1_000_000u64));
 
     let fs = match tb.full_size() { Ok(n) => n as i128, Err(_) => return "err:full_size".into() };
@@ -543,13 +550,14 @@ fn run_case(c: &Case) -> String {
     // what the built transaction shows
     let mut native_ids: BTreeMap<Vec<u8>, u64> = BTreeMap::new();
     for s in 0..40u64 { native_ids.insert(w.native_script(s, None).to_bytes(), s); }
-    let mut plutus_ids: BTreeMap<Vec<u8>, u64> = BTreeMap::new();
-    for s in 1000..1040u64 { plutus_ids.insert(w.plutus_script(s).to_bytes(), s); }
+    let lang_no = |p: &PlutusScript| -> u8 { match p.language_version().kind() { LanguageKind::PlutusV1 => 0, LanguageKind::PlutusV2 => 1, LanguageKind::PlutusV3 => 2 } };
+    let mut plutus_ids: BTreeMap<(Vec<u8>, u8), u64> = BTreeMap::new();
+    for s in 1000..1040u64 { let p = w.plutus_script(s); plutus_ids.insert((p.bytes(), lang_no(&p)), s); }
     let mut key_ids: BTreeMap<Vec<u8>, u64> = BTreeMap::new();
     for k in 0..NKEYS { key_ids.insert(kh(k).to_bytes(), k); }
     let wset = tx.witness_set();
     let mut ns = vec![]; if let Some(v) = wset.native_scripts() { for i in 0..v.len() { ns.push(*native_ids.get(&v.get(i).to_bytes()).unwrap_or(&9999)); } }
-    let mut ps = vec![]; if let Some(v) = wset.plutus_scripts() { for i in 0..v.len() { ps.push(*plutus_ids.get(&v.get(i).to_bytes()).unwrap_or(&9999)); } }
+    let mut ps = vec![]; if let Some(v) = wset.plutus_scripts() { for i in 0..v.len() { { let p = v.get(i); ps.push(*plutus_ids.get(&(p.bytes(), lang_no(&p))).unwrap_or(&9999)); } } }
     let mut dat = vec![]; if let Some(v) = wset.plutus_data() { for i in 0..v.len() { dat.push(v.get(i).as_integer().map(|b| b.to_str().parse::<u64>().unwrap_or(9999)).unwrap_or(9999)); } }
     let mut red: Vec<(u64, u64)> = vec![];
     if let Some(v) = wset.redeemers() {
@@ -670,7 +678,7 @@ fn new_gen(r: &mut Rng, nkeys: u64) -> G {
     let mut g = G { r: Rng::new(r.next()), nkeys, native: vec![], plutus: vec![], norefs: 16 };
     let nn = 2 + g.r.below(4);
     for i in 0..nn { let ks = g.keys(3); g.native.push((1 + i, ks)); }
-    let np = 2 + g.r.below(4);
+    let np = 3 + g.r.below(4);
     for i in 0..np { g.plutus.push(1000 + i); }
     g
 }
